@@ -468,6 +468,7 @@ def _run_impl(case: dict) -> dict:
             return {'executed': executed, 'exec_idx': exec_idx, 'lines': lines, 'facts': facts_l, 'skipped': skipped,
                     'logs': logs, 'mlines': mlines,
                     'dialed': [list(k) for k in dialed], 'expected_dial': [PEER_IP, port], 'hang': hang['hit'], 'sites': sorted(audit.sites),
+                    'site_callers': {k: sorted(v) for k, v in getattr(audit, 'callers', {}).items()},
                     'dial_obfuscated': [bool(c.obfuscated) for c in dconn],
                     'loop_exceptions': [e for e in loop.exceptions if e.get('type') not in (None, 'CancelledError', '_Hang')]}
         finally:
@@ -942,15 +943,23 @@ LISTENER_SITES = frozenset([
 
 
 def site_breaks(cases: list, impl: list) -> list:
-    """One Disagreement per await site that the models do not name (first case that shows it)."""
+    """One Disagreement per await site that the models do not name (first case that shows it).
+    A site inside a function the models do not know (`file:helper>X`) is the known site `file:caller>X` when a caller
+    on the same await chain is known to suspend in `X`: code moved into a helper suspends where it did before."""
     out, seen = [], set()
+    known_fns = {k.split('>', 1)[0] for k in _c10.KNOWN_SITES | LISTENER_SITES}
     for c, io in zip(cases, impl):
         known = _c10.KNOWN_SITES | LISTENER_SITES if ('ops' in c and _has_holds(c)) else _c10.KNOWN_SITES
         for site in io.get('sites', []):
-            if site not in known and site not in seen:
-                seen.add(site)
-                out.append(Disagreement(c, {'await_site': site}, {'known_sites': sorted(known)},
-                                        'granularity: the anchored code suspends at a point the model does not name'))
+            if site in known or site in seen:
+                continue
+            fn, awaited = site.split('>', 1)
+            if fn not in known_fns and any(f'{caller}>{awaited}' in known
+                                           for caller in io.get('site_callers', {}).get(site, [])):
+                continue
+            seen.add(site)
+            out.append(Disagreement(c, {'await_site': site}, {'known_sites': sorted(known)},
+                                    'granularity: the anchored code suspends at a point the model does not name'))
     return out
 
 
